@@ -160,9 +160,12 @@ def ob_validate_then_use(run, oid):
                 cls = "signer, range-checked on the line before" if g else None
             elif any(x.endswith("ValidatedVote::into_vote") for x in pv["calls"]):
                 cls = "signer of a ValidatedVote"
-        elif any(x.endswith("sample_relay") or x.endswith("TurbineTree::get_root") or x.endswith("get_children") for x in pv["calls"]) or K.mentions_name(t, "child"):
+        elif any(x.endswith("sample_relay") or x.endswith("TurbineTree::get_root") or x.endswith("get_children") for x in pv["calls"]):
             cls = "index produced by the sampler / shuffle over the validator set"
-        elif fshort(b.defpath).endswith("send_response") or K.mentions_name(t, "validator"):
+        elif b.is_closure and K.peel(t)[0] == "param" and K.root_fn(b.defpath).endswith("Turbine::forward_shred"):
+            # closure mapped over tree.get_children(): its parameter is a child index of the shuffled order
+            cls = "index produced by the sampler / shuffle over the validator set"
+        elif K.peel(t)[0] in ("param", "upvar"):
             # parameter: check callers guard it
             callers = prog.callers_of(K.root_fn(b.defpath))
             ok = bool(callers)
@@ -266,6 +269,8 @@ def ob_error_discipline(run, oid):
 def check(run):
     ob_panic_closure(run, "O10.1")
     ob_window_arith(run, "O10.1b")
+    from . import C13
+    C13.ob_last_slice_prune(run, "O10.1c")
     ob_validate_then_use(run, "O10.2")
     ob_sanitise_tx(run, "O10.3")
     ob_lock_order(run, "O10.4")
